@@ -68,9 +68,9 @@ Proof.
     split.
     + unfold view. cbn. rewrite lookup_insert_eq.
       match goal with |- context[expired _ ?r] =>
-        change r with (stored s (saturating_add64 (h_cas h) 1) (mkRec 0 (h_cas h) f e v)) end.
+        change r with (stored s (next_client_cas (h_cas h)) (mkRec 0 (h_cas h) f e v)) end.
       now rewrite stored_visible.
-    + unfold saturating_add64. cbn. destruct (h_cas h + 1 <? two64); [lia|discriminate].
+    + unfold next_client_cas. cbn [r_cas]. lia.
   - discriminate.
 Qed.
 
